@@ -106,6 +106,21 @@ def shape_corpus():
     a(mk("la_mend_only", [rx(r"(?m:end$)"), tok("\n")]))
     a(mk("la_end_only2", [rx(r"ab$")], [skip(" ")]))
     a(mk("la_bytes_kw", [rx(rb"if(?-u:\b)"), rx(rb"[\x80-\xff]")], utf8=False))
+    # late-accept states that still have edges / self loops / an EOI edge (the match is revealed by a byte
+    # that also continues another pattern)
+    a(mk("late_loop", [rx(r"[a-z]+(?-u:\B)"), rx("[0-9]")]))
+    a(mk("late_loop_bytes", [rx(rb"(?-u)[a-z]+\B"), rx(rb"[0-9]+")], utf8=False))
+    a(mk("late_loop_edges", [rx(r"[a-z]+(?-u:\B)"), rx("[a-z]+[0-9]"), rx("[a-z]+:[a-z]")]))
+    a(mk("late_edge1", [rx(r"x(?-u:\B)"), rx("xy+z")]))
+    a(mk("late_edge2", [rx(r"x(?-u:\B)"), rx("xab"), rx("xcd"), tok("y")]))
+    a(mk("late_edge3", [rx(r"k(?-u:\B)"), rx("k[a-c]1"), rx("k[d-f]2"), rx("k[g-i]3"), rx("k[j-l]4")]))
+    a(mk("late_mend_cont", [rx("(?m:a$)"), tok("a\nb"), tok("\n")]))
+    a(mk("late_mend_loop", [rx("(?m:a+$)"), rx("a+\n+b"), tok("\n")]))
+    a(mk("late_wordb_cont", [rx(r"[a-z]+(?-u:\b)"), rx("[a-z]+-[a-z]+"), tok("-")]))
+    a(mk("late_wordb_loop", [rx(r"[a-z]+(?-u:\b)"), rx("[a-z]+ +x"), tok(" ")]))
+    a(mk("late_eoi_edges", [rx("ab$"), rx("ab+c"), rx("abd")]))
+    a(mk("late_two_leaves", [rx(r"a+(?-u:\B)"), rx(r"a+b(?-u:\B)", prio=9), rx("a+bc+d")]))
+    a(mk("late_skip", [rx("[a-z]+x")], [skip(r"[a-z]+(?-u:\B)", prio=1), skip("[0-9]")]))
     # --- fork shapes: 1, 2, 3+ edges, holes, LUTs, jump tables
     a(mk("fork1", [rx("ab")]))
     a(mk("fork2", [rx("a[bc]"), rx("a[de]x")]))
